@@ -69,7 +69,7 @@ def roots(body):
 
 def expr(body, defs, op, depth=0):
     """A small structural expression for an operand, following single-assignment copies, refs and derefs."""
-    if depth > 12:
+    if depth > 40:
         return ("?",)
     if op.get("k") == "const":
         if "v" in op and isinstance(op["v"], (int, bool, str)):
